@@ -17,6 +17,10 @@ pub enum C17Case {
     Synth { signo: i32, code: i32, pid: i32, uid: u32, fill: Vec<u8> },
     /// real delivery: mechanism x signal index
     Real { mech: u8, sig: u8 },
+    /// the origin exfiltrator inside an iterator instance under the schedule-owning executor
+    /// (simulated deliveries with varied si_code; the record the kernel would not have filled in
+    /// when the live handler lacks SA_SIGINFO is stale memory)
+    Iter(crate::iter::IterCase),
     /// re-entrancy: `iters` extractions of a synthetic record on a thread that is bombarded with
     /// signals whose own action extracts the origin of its delivery as well
     Reentrant { signo: i32, code: i32, pid: i32, uid: u32, iters: u32 },
@@ -52,6 +56,11 @@ pub fn strategy() -> BoxedStrategy<C17Case> {
         )
             .prop_map(|(signo, code, pid, uid, fill)| C17Case::Synth { signo, code, pid, uid, fill }),
         200 => (0u8..12, 0u8..8).prop_map(|(mech, sig)| C17Case::Real { mech, sig }),
+        60 => crate::iter::strategy(false).prop_map(|mut c| {
+            c.exf = 2;
+            c.plain_first = c.polls % 2 == 0;
+            C17Case::Iter(c)
+        }),
         // rare: each costs ~0.1 s
         1 => (
             prop_oneof![Just(libc::SIGUSR1), Just(libc::SIGCHLD), 1i32..65],
@@ -468,6 +477,12 @@ fn reentrant(signo: i32, code: i32, pid: i32, uid: u32, iters: u32) -> CaseRepor
 
 pub fn run_case(case: &C17Case) -> CaseReport {
     match case {
+        C17Case::Iter(c) => {
+            let mut r = crate::iter::run_case(c);
+            r.classes.push("origin-exfiltrator-in-iterator".into());
+            r.nontrivial = true;
+            r
+        }
         C17Case::Reentrant { signo, code, pid, uid, iters } => reentrant(*signo, *code, *pid, *uid, *iters),
         C17Case::Synth { signo, code, pid, uid, fill } => synth(*signo, *code, *pid, *uid, fill),
         C17Case::Real { mech, sig } => real(*mech, *sig),
@@ -517,7 +532,7 @@ fn replay(v: &Value) -> CaseReport {
 pub static C17: PropDef = PropDef {
     id: "C17",
     prefixes: &["C17/"],
-    rule: "two generated domains: (1) synthetic 128-byte siginfo images (signal 1..64/any, si_code from every code the extractor distinguishes + neighbours + random, random and boundary pid/uid (0, 1, -1, MAX; pid 0 with uid 0 = a root sender outside the receiver's pid namespace), random filler) decoded in-process by Origin::extract and compared with an independent reference decoder; (2) real deliveries in a forked child: mechanism {kill(self), raise, pthread_kill, sigqueue, kill from a child, child exited/killed/stopped/continued, alarm, setitimer, timer_create} x signal, read through SignalsInfo<WithOrigin> and by a raw reader in a register_sigaction action; worker 0 enumerates all mechanisms and all distinguished codes. Oracle: signal number, cause class per mechanism, pid/uid == getpid/getuid or the child's, no process for kernel/timer origins or unknown codes. Non-trivial = distinguished code or real delivery; distinct = (signo, code, pid, uid) / (mechanism, signal)",
+    rule: "three generated domains: (0) iterator scenarios with the origin exfiltrator under the schedule-owning executor (simulated deliveries with SI_USER / SI_QUEUE / small positive codes on non-SIGCHLD signals, optionally after plain actions took the signals over first; the kernel model leaves the record unfilled while the live handler lacks SA_SIGINFO) judged by the same reference decoder; (1) synthetic 128-byte siginfo images (signal 1..64/any, si_code from every code the extractor distinguishes + neighbours + random, random and boundary pid/uid (0, 1, -1, MAX; pid 0 with uid 0 = a root sender outside the receiver's pid namespace), random filler) decoded in-process by Origin::extract and compared with an independent reference decoder; (2) real deliveries in a forked child: mechanism {kill(self), raise, pthread_kill, sigqueue, kill from a child, child exited/killed/stopped/continued, alarm, setitimer, timer_create} x signal, read through SignalsInfo<WithOrigin> and by a raw reader in a register_sigaction action; worker 0 enumerates all mechanisms and all distinguished codes. Oracle: signal number, cause class per mechanism, pid/uid == getpid/getuid or the child's, no process for kernel/timer origins or unknown codes. Non-trivial = distinguished code or real delivery; distinct = (signo, code, pid, uid) / (mechanism, signal)",
     assumptions: &["Linux si_code constants and the x86-64/aarch64 siginfo layout (si_pid at offset 16, si_uid at 20) are written independently in the harness"],
     cases: (4000, 200_000),
     shrink_iters: 500,
